@@ -8,12 +8,8 @@ package main
 // dominating guards), the loop definitely does not terminate for those inputs.
 
 import (
-	"fmt"
 	"go/ast"
-	"go/token"
 	"go/types"
-	"math"
-	"strings"
 )
 
 type stCond struct {
@@ -28,319 +24,10 @@ type stPath struct {
 	dead    bool // abandoned (unknown construct)
 }
 
-func (p *stPath) clone() *stPath {
-	q := &stPath{env: map[types.Object]ast.Expr{}, written: map[types.Object]bool{}, dead: p.dead}
-	for k, v := range p.env {
-		q.env[k] = v
-	}
-	for k := range p.written {
-		q.written[k] = true
-	}
-	q.conds = append([]stCond(nil), p.conds...)
-	return q
-}
-
 type stutter struct {
 	info  *types.Info
 	paths []*stPath // paths that reached the back-edge
 	limit int
-}
-
-// subst rewrites e replacing variables by their symbolic values.
-func (s *stutter) subst(p *stPath, e ast.Expr) (ast.Expr, bool) {
-	ok := true
-	var rec func(e ast.Expr) ast.Expr
-	rec = func(e ast.Expr) ast.Expr {
-		switch x := e.(type) {
-		case *ast.ParenExpr:
-			return &ast.ParenExpr{X: rec(x.X)}
-		case *ast.Ident:
-			if o := objOf(s.info, x); o != nil {
-				if v, has := p.env[o]; has {
-					if v == nil {
-						ok = false
-						return x
-					}
-					return &ast.ParenExpr{X: v}
-				}
-			}
-			return x
-		case *ast.BinaryExpr:
-			return &ast.BinaryExpr{X: rec(x.X), Op: x.Op, Y: rec(x.Y), OpPos: x.OpPos}
-		case *ast.UnaryExpr:
-			return &ast.UnaryExpr{Op: x.Op, X: rec(x.X), OpPos: x.OpPos}
-		case *ast.BasicLit:
-			return x
-		case *ast.CallExpr:
-			if la := lenArg(s.info, x); la != nil {
-				if o := objOf(s.info, la); o != nil {
-					if _, has := p.env[o]; has {
-						ok = false // the slice itself was reassigned on this path
-					}
-				}
-				return x
-			}
-			ok = false // a call: not a function of the tracked state
-			return x
-		default:
-			ok = false
-			return e
-		}
-	}
-	r := rec(e)
-	return r, ok
-}
-
-func (s *stutter) assign(p *stPath, lhs ast.Expr, rhs ast.Expr) {
-	o := objOf(s.info, lhs)
-	if o == nil {
-		return // stores through index/field: not control state we track
-	}
-	p.written[o] = true
-	if rhs == nil {
-		p.env[o] = nil
-		return
-	}
-	if v, ok := s.subst(p, rhs); ok {
-		p.env[o] = v
-	} else {
-		p.env[o] = nil
-	}
-}
-
-// walk explores statement lists; returns the set of paths that fall through.
-func (s *stutter) walk(list []ast.Stmt, in []*stPath, loopDepth int) []*stPath {
-	cur := in
-	for _, st := range list {
-		var next []*stPath
-		for _, p := range cur {
-			next = append(next, s.stmt(st, p, loopDepth)...)
-		}
-		cur = next
-		if len(cur) > s.limit {
-			cur = cur[:s.limit]
-		}
-	}
-	return cur
-}
-
-func (s *stutter) stmt(st ast.Stmt, p *stPath, depth int) []*stPath {
-	if p.dead {
-		return nil
-	}
-	switch x := st.(type) {
-	case *ast.BlockStmt:
-		return s.walk(x.List, []*stPath{p}, depth)
-	case *ast.EmptyStmt:
-		return []*stPath{p}
-	case *ast.ExprStmt:
-		if isPanicCall(s.info, x.X) {
-			return nil
-		}
-		return []*stPath{p}
-	case *ast.DeclStmt:
-		if gd, ok := x.Decl.(*ast.GenDecl); ok {
-			for _, sp := range gd.Specs {
-				if vs, ok := sp.(*ast.ValueSpec); ok {
-					for i, nm := range vs.Names {
-						var rhs ast.Expr
-						if i < len(vs.Values) {
-							rhs = vs.Values[i]
-						}
-						if rhs == nil {
-							// zero value
-							if o := s.info.Defs[nm]; o != nil {
-								p.written[o] = true
-								if b, ok := o.Type().Underlying().(*types.Basic); ok && b.Info()&types.IsBoolean != 0 {
-									p.env[o] = &ast.Ident{Name: "false"}
-								} else if ok && b.Info()&types.IsInteger != 0 {
-									p.env[o] = &ast.BasicLit{Kind: token.INT, Value: "0"}
-								} else {
-									p.env[o] = nil
-								}
-							}
-							continue
-						}
-						s.assign(p, nm, rhs)
-					}
-				}
-			}
-		}
-		return []*stPath{p}
-	case *ast.AssignStmt:
-		if x.Tok == token.ASSIGN || x.Tok == token.DEFINE {
-			if len(x.Lhs) == len(x.Rhs) {
-				// evaluate all RHS first
-				vals := make([]ast.Expr, len(x.Rhs))
-				oks := make([]bool, len(x.Rhs))
-				for i, r := range x.Rhs {
-					vals[i], oks[i] = s.subst(p, r)
-				}
-				for i, l := range x.Lhs {
-					if o := objOf(s.info, l); o != nil {
-						p.written[o] = true
-						if oks[i] {
-							p.env[o] = vals[i]
-						} else {
-							p.env[o] = nil
-						}
-					}
-				}
-			} else {
-				for _, l := range x.Lhs {
-					s.assign(p, l, nil)
-				}
-			}
-		} else {
-			// op-assign: v = v op rhs
-			if len(x.Lhs) == 1 {
-				var op token.Token
-				switch x.Tok {
-				case token.ADD_ASSIGN:
-					op = token.ADD
-				case token.SUB_ASSIGN:
-					op = token.SUB
-				default:
-					s.assign(p, x.Lhs[0], nil)
-					return []*stPath{p}
-				}
-				s.assign(p, x.Lhs[0], &ast.BinaryExpr{X: x.Lhs[0], Op: op, Y: x.Rhs[0]})
-			}
-		}
-		return []*stPath{p}
-	case *ast.IncDecStmt:
-		op := token.ADD
-		if x.Tok == token.DEC {
-			op = token.SUB
-		}
-		s.assign(p, x.X, &ast.BinaryExpr{X: x.X, Op: op, Y: &ast.BasicLit{Kind: token.INT, Value: "1"}})
-		return []*stPath{p}
-	case *ast.ReturnStmt:
-		return nil
-	case *ast.BranchStmt:
-		if x.Label != nil {
-			return nil
-		}
-		switch x.Tok {
-		case token.BREAK:
-			return nil // leaves the loop under analysis (depth 0) — or an inner loop we never enter
-		case token.CONTINUE:
-			if depth == 0 {
-				s.paths = append(s.paths, p)
-			}
-			return nil
-		}
-		return nil
-	case *ast.IfStmt:
-		if x.Init != nil {
-			ps := s.stmt(x.Init, p, depth)
-			if len(ps) != 1 {
-				return nil
-			}
-			p = ps[0]
-		}
-		c, ok := s.subst(p, x.Cond)
-		var out []*stPath
-		for _, truth := range []bool{true, false} {
-			q := p.clone()
-			if ok {
-				q.conds = append(q.conds, stCond{c, truth})
-			} else {
-				q.conds = append(q.conds, stCond{nil, truth}) // undecidable condition: poisons the path
-			}
-			if truth {
-				out = append(out, s.walk(x.Body.List, []*stPath{q}, depth)...)
-			} else if x.Else != nil {
-				out = append(out, s.stmt(x.Else, q, depth)...)
-			} else {
-				out = append(out, q)
-			}
-		}
-		return out
-	case *ast.ForStmt:
-		// only the zero-iteration path of inner loops is followed
-		if x.Init != nil {
-			ps := s.stmt(x.Init, p, depth)
-			if len(ps) != 1 {
-				return nil
-			}
-			p = ps[0]
-		}
-		if x.Cond == nil {
-			return nil
-		}
-		c, ok := s.subst(p, x.Cond)
-		if !ok {
-			p.conds = append(p.conds, stCond{nil, false})
-		} else {
-			p.conds = append(p.conds, stCond{c, false})
-		}
-		return []*stPath{p}
-	case *ast.RangeStmt:
-		// zero iterations: len(X) == 0
-		p.conds = append(p.conds, stCond{&ast.BinaryExpr{X: &ast.CallExpr{Fun: &ast.Ident{Name: "len"}, Args: []ast.Expr{x.X}}, Op: token.EQL, Y: &ast.BasicLit{Kind: token.INT, Value: "0"}}, true})
-		p.conds[len(p.conds)-1].e = nil // synthesized len() has no type info: treat as undecidable
-		return []*stPath{p}
-	}
-	p.dead = true
-	return nil
-}
-
-// stutterPaths returns the header-to-header paths of loop that leave every
-// variable mentioned in their (substituted) conditions unchanged.
-func stutterPaths(info *types.Info, loop *ast.ForStmt) []*stPath {
-	s := &stutter{info: info, limit: 512}
-	start := &stPath{env: map[types.Object]ast.Expr{}, written: map[types.Object]bool{}}
-	if loop.Cond != nil {
-		start.conds = append(start.conds, stCond{loop.Cond, true})
-	}
-	falls := s.walk(loop.Body.List, []*stPath{start}, 0)
-	if loop.Post != nil {
-		var next []*stPath
-		for _, p := range append(falls, s.paths...) {
-			next = append(next, s.stmt(loop.Post, p, 0)...)
-		}
-		falls, s.paths = next, nil
-	}
-	all := append(falls, s.paths...)
-	var out []*stPath
-	for _, p := range all {
-		if p.dead {
-			continue
-		}
-		ok := true
-		for _, c := range p.conds {
-			if c.e == nil {
-				ok = false
-				break
-			}
-			ast.Inspect(c.e, func(n ast.Node) bool {
-				if id, isId := n.(*ast.Ident); isId {
-					if o := objOf(info, id); o != nil {
-						if _, isVar := o.(*types.Var); isVar && p.written[o] {
-							// the variable is read at its entry value but changed by the path —
-							// unless the path re-establishes the same value, which we do not try to prove
-							if v, has := p.env[o]; !has || v == nil || !isSelf(info, v, o) {
-								ok = false
-							}
-						}
-					}
-				}
-				return ok
-			})
-			if !ok {
-				break
-			}
-		}
-		if ok {
-			out = append(out, p)
-		}
-	}
-	return out
-}
-
-func isSelf(info *types.Info, v ast.Expr, o types.Object) bool {
-	return objOf(info, unparen(v)) == o
 }
 
 // ---------------------------------------------------------------- feasibility
@@ -355,244 +42,10 @@ type entryFacts struct {
 	lens   map[string]*lenRange // keyed by source text of x
 }
 
-func collectEntry(info *types.Info, body []ast.Stmt, stop ast.Stmt) *entryFacts {
-	ef := &entryFacts{consts: map[types.Object]int64{}, lens: map[string]*lenRange{}}
-	for _, st := range body {
-		if st == stop {
-			break
-		}
-		switch x := st.(type) {
-		case *ast.AssignStmt:
-			for i, l := range x.Lhs {
-				o := objOf(info, l)
-				if o == nil {
-					continue
-				}
-				delete(ef.consts, o)
-				if (x.Tok == token.DEFINE || x.Tok == token.ASSIGN) && len(x.Lhs) == len(x.Rhs) {
-					if k, ok := constInt(info, x.Rhs[i]); ok {
-						ef.consts[o] = k
-					}
-				}
-			}
-		case *ast.IfStmt:
-			// guard: if cond { …; return }  ⇒ !cond afterwards
-			if x.Else == nil && len(x.Body.List) > 0 {
-				if _, isRet := x.Body.List[len(x.Body.List)-1].(*ast.ReturnStmt); isRet {
-					ef.constrain(info, x.Cond, false)
-				}
-			}
-		}
-	}
-	return ef
-}
-
-func (ef *entryFacts) rng(k string) *lenRange {
-	r := ef.lens[k]
-	if r == nil {
-		r = &lenRange{0, math.Inf(1)}
-		ef.lens[k] = r
-	}
-	return r
-}
-
 // linear form a + b*len(x) of an int expression under known constants.
 type lin struct {
 	c  float64
 	k  float64
 	of string
 	ok bool
-}
-
-func (ef *entryFacts) lin(info *types.Info, e ast.Expr) lin {
-	e = unparen(e)
-	if k, ok := constInt(info, e); ok {
-		return lin{c: float64(k), ok: true}
-	}
-	switch x := e.(type) {
-	case *ast.BasicLit:
-		var k int64
-		if _, err := fmt.Sscan(x.Value, &k); err == nil {
-			return lin{c: float64(k), ok: true}
-		}
-	case *ast.Ident:
-		if o := objOf(info, x); o != nil {
-			if k, ok := ef.consts[o]; ok {
-				return lin{c: float64(k), ok: true}
-			}
-		}
-	case *ast.CallExpr:
-		if la := lenArg(info, x); la != nil {
-			return lin{k: 1, of: src(la), ok: true}
-		}
-	case *ast.BinaryExpr:
-		l, r := ef.lin(info, x.X), ef.lin(info, x.Y)
-		if !l.ok || !r.ok {
-			return lin{}
-		}
-		if l.of != "" && r.of != "" && l.of != r.of {
-			return lin{}
-		}
-		of := l.of
-		if of == "" {
-			of = r.of
-		}
-		switch x.Op {
-		case token.ADD:
-			return lin{c: l.c + r.c, k: l.k + r.k, of: of, ok: true}
-		case token.SUB:
-			return lin{c: l.c - r.c, k: l.k - r.k, of: of, ok: true}
-		}
-	}
-	return lin{}
-}
-
-// constrain applies (cond == truth); returns false if the condition could not
-// be interpreted (feasibility then stays unknown), and sets infeasible ranges
-// when contradictory.
-func (ef *entryFacts) constrain(info *types.Info, cond ast.Expr, truth bool) (understood bool) {
-	cond = unparen(cond)
-	if id, ok := cond.(*ast.Ident); ok {
-		if id.Name == "true" || id.Name == "false" {
-			if (id.Name == "true") != truth {
-				ef.rng("⊥").lo = 1
-				ef.rng("⊥").hi = 0
-			}
-			return true
-		}
-	}
-	if tv, ok := info.Types[cond]; ok && tv.Value != nil {
-		if (tv.Value.String() == "true") != truth {
-			ef.rng("⊥").lo, ef.rng("⊥").hi = 1, 0
-		}
-		return true
-	}
-	switch x := cond.(type) {
-	case *ast.UnaryExpr:
-		if x.Op == token.NOT {
-			return ef.constrain(info, x.X, !truth)
-		}
-	case *ast.BinaryExpr:
-		if (x.Op == token.LAND && truth) || (x.Op == token.LOR && !truth) {
-			a := ef.constrain(info, x.X, truth)
-			b := ef.constrain(info, x.Y, truth)
-			return a && b
-		}
-		if x.Op == token.LAND || x.Op == token.LOR {
-			return false
-		}
-		l, r := ef.lin(info, x.X), ef.lin(info, x.Y)
-		if !l.ok || !r.ok || (l.of != "" && r.of != "" && l.of != r.of) {
-			return false
-		}
-		// l - r = c + k*L  op 0
-		c, k := l.c-r.c, l.k-r.k
-		of := l.of
-		if of == "" {
-			of = r.of
-		}
-		op := x.Op
-		if !truth {
-			switch op {
-			case token.LSS:
-				op = token.GEQ
-			case token.LEQ:
-				op = token.GTR
-			case token.GTR:
-				op = token.LEQ
-			case token.GEQ:
-				op = token.LSS
-			case token.EQL:
-				op = token.NEQ
-			case token.NEQ:
-				op = token.EQL
-			}
-		}
-		if k == 0 {
-			holds := false
-			switch op {
-			case token.LSS:
-				holds = c < 0
-			case token.LEQ:
-				holds = c <= 0
-			case token.GTR:
-				holds = c > 0
-			case token.GEQ:
-				holds = c >= 0
-			case token.EQL:
-				holds = c == 0
-			case token.NEQ:
-				holds = c != 0
-			}
-			if !holds {
-				ef.rng("⊥").lo, ef.rng("⊥").hi = 1, 0
-			}
-			return true
-		}
-		// k*L op -c  →  L op' (-c/k)
-		b := -c / k
-		if k < 0 {
-			switch op {
-			case token.LSS:
-				op = token.GTR
-			case token.LEQ:
-				op = token.GEQ
-			case token.GTR:
-				op = token.LSS
-			case token.GEQ:
-				op = token.LEQ
-			}
-		}
-		r0 := ef.rng(of)
-		switch op {
-		case token.LSS:
-			r0.hi = math.Min(r0.hi, math.Ceil(b)-1)
-		case token.LEQ:
-			r0.hi = math.Min(r0.hi, math.Floor(b))
-		case token.GTR:
-			r0.lo = math.Max(r0.lo, math.Floor(b)+1)
-		case token.GEQ:
-			r0.lo = math.Max(r0.lo, math.Ceil(b))
-		case token.EQL:
-			r0.lo, r0.hi = math.Max(r0.lo, b), math.Min(r0.hi, b)
-		case token.NEQ:
-			if r0.lo == b {
-				r0.lo = b + 1
-			} else if r0.hi == b {
-				r0.hi = b - 1
-			} else {
-				return false
-			}
-		}
-		return true
-	}
-	return false
-}
-
-func (ef *entryFacts) feasible() (bool, string) {
-	var parts []string
-	for k, r := range ef.lens {
-		if r.lo > r.hi {
-			return false, ""
-		}
-		if k != "⊥" {
-			hi := "∞"
-			if !math.IsInf(r.hi, 1) {
-				hi = fmt.Sprint(r.hi)
-			}
-			parts = append(parts, fmt.Sprintf("len(%s) ∈ [%v, %s]", k, r.lo, hi))
-		}
-	}
-	return true, strings.Join(parts, ", ")
-}
-
-func (ef *entryFacts) clone() *entryFacts {
-	c := &entryFacts{consts: map[types.Object]int64{}, lens: map[string]*lenRange{}}
-	for k, v := range ef.consts {
-		c.consts[k] = v
-	}
-	for k, v := range ef.lens {
-		c.lens[k] = &lenRange{v.lo, v.hi}
-	}
-	return c
 }
